@@ -10,7 +10,7 @@ RULE = ('table of (operation, state in which it can complete without waiting) x 
         'before: await of true conditions / done task / ended scope / instant, sleep 0, flag and tracked sets (changing or not), '
         'queue and channel put/get(buffered)/close (open or closed)/iteration, borrow/claim/give back, '
         'increase/decrease/set, pipe transfers (zero volume, unbounded, finite), interval/delay steps incl. period 0, collect '
-        '(empty and non-empty), leaving an (empty) scope block, leaving a scope block in the turn after a child failed (cancellation still queued), giving borrowed / claimed resources back when the block is left normally, by an exception, by the interrupt of an until-scope or by a cancellation of the task of the holder (next to activities that stay runnable), tickers whose steps pass no time (body takes exactly the period, period 0) next to activities that stay runnable; each spinner must log a turn between the start marker 100 and the '
+        '(empty and non-empty), leaving an (empty) scope block, leaving a scope block in the turn after a child failed (cancellation still queued), giving borrowed / claimed resources back when the block is left normally, by an exception, by the interrupt of an until-scope or by a cancellation of the task of the holder (next to activities that stay runnable), tickers whose steps pass no time (body takes exactly the period, period 0) next to activities that stay runnable, iterations whose steps pass no time (a queue with a backlog, a queue filled by several puts of one time step, first() over activities that finish together) next to activities that stay runnable; each spinner must log a turn between the start marker 100 and the '
         'completion marker 101 of the operation; the table is enumerated completely in every run (exhaustive over the table); '
         'thorough adds random prefixes; non-trivial = every case')
 
@@ -88,6 +88,31 @@ def ticker_case(stmt, period, k, offset=0):
     return ['scenario', ['debug', 1], ['start', 0], ['flags', 1], ['locks', 0], ['roots'] + roots]
 
 
+def iter_step_case(kind, k, n=3):
+    """the steps of an iteration that pass no time, next to k activities that stay runnable: `async for` over a queue that
+    holds n items already, over a queue that two producers fill in the same time step, and over first(.., count=n) whose
+    activities all finish at the same time"""
+    spin = [['sleep', 0], None] * (8 * (n + 2))
+    if kind == 'queue-backlog':
+        roots = [['prog'] + [['qput', 0, i + 1] for i in range(n)] + [['sleep', 1], ['qiter', 0, n], ['log', 101]]]
+        offset = 1
+    elif kind == 'queue-producers':
+        roots = [['prog', ['qiter', 0, n], ['log', 101]]]
+        offset = 1
+    else:
+        roots = [['prog', ['first', n, None, ['progs'] + [['prog', ['sleep', 1], ['ret', 11 + i]] for i in range(n)]], ['log', 101]]]
+        offset = 1
+    for i in range(k):
+        roots.append(['prog', ['sleep', offset]] + [['log', 200 + i] if x is None else x for x in spin])
+    if kind == 'queue-producers':
+        # (after the spinners, so that the convention "root activities 1..k are the spinners" holds)
+        roots.append(['prog', ['sleep', 1]] + [['qput', 0, 10 + i] for i in range(n)])
+    return ['scenario', ['debug', 1], ['start', 0], ['flags', 1], ['locks', 0], ['queues', 1], ['roots'] + roots]
+
+
+ITER_STEPS = ['queue-backlog', 'queue-producers', 'first-ties']
+
+
 #: leaving a borrow / claim block while holding: (name, how the holder is thrown out)
 GIVE_BACK = ['normal', 'until-flag', 'until-time', 'cancel', 'exception']
 
@@ -141,6 +166,12 @@ def run(tier, seed, drv):
                 st.judge_params = str(k)
                 st.check(ticker_case(stmt, period, k, offset), meta={'operation': name, 'spinners': k}, nontrivial=lambda impl: True)
                 st.res.count('op:' + name)
+    for kind in ITER_STEPS:
+        for k in (1, 2, 3):
+            for n in (2, 3, 4):
+                st.judge_params = str(k)
+                st.check(iter_step_case(kind, k, n), meta={'operation': 'iteration-step-' + kind, 'spinners': k}, nontrivial=lambda impl: True)
+                st.res.count('op:iteration-step-' + kind)
     for k in (1, 2, 3):
         st.judge_params = str(k)
         st.check(failed_child_exit_case(k), meta={'operation': 'scope-exit-after-child-failure', 'spinners': k}, nontrivial=lambda impl: True)
